@@ -7,7 +7,7 @@ from typing import Callable, Dict, Iterable, List, Optional, Set, Tuple
 
 from ..cfg import CFG, Node
 from ..core import Ctx
-from ..model import Class, Func, own_nodes, src
+from ..model import AnalysisError, Class, Func, own_nodes, src
 from ..pathsem import PathInfo, resolve_local
 
 
@@ -717,3 +717,211 @@ def possible_classes(ctx: Ctx, static: List[Class], atoms: List[Tuple[ast.AST, b
             covered |= {s.name for s in ctx.prog.subclasses(c)}
         cur = cur & covered if truth else cur - covered
     return cur
+
+
+# ------------------------------------------------------------------ renderers: what is joined, in which order
+def _seq_elements(e: ast.AST, seqs: Dict[str, List[ast.AST]]) -> Optional[List[ast.AST]]:
+    """Element expressions of a list-valued expression built from literals and tracked locals."""
+    if isinstance(e, (ast.List, ast.Tuple)):
+        out: List[ast.AST] = []
+        for x in e.elts:
+            if isinstance(x, ast.Starred):
+                sub = _seq_elements(x.value, seqs)
+                if sub is None:
+                    return None
+                out.extend(sub)
+            else:
+                out.append(x)
+        return out
+    if isinstance(e, ast.Name) and e.id in seqs:
+        return list(seqs[e.id])
+    if isinstance(e, ast.BinOp) and isinstance(e.op, ast.Add):
+        a, b = _seq_elements(e.left, seqs), _seq_elements(e.right, seqs)
+        return None if a is None or b is None else a + b
+    if isinstance(e, ast.Call) and isinstance(e.func, ast.Name) and e.func.id in ("list", "tuple") and len(e.args) == 1:
+        return _seq_elements(e.args[0], seqs)
+    # filters that drop empty texts keep the order: [s for s in X if s], (s for s in X if s), filter(None, X), filter(bool, X)
+    if isinstance(e, (ast.ListComp, ast.GeneratorExp)) and len(e.generators) == 1:
+        g = e.generators[0]
+        if isinstance(g.target, ast.Name) and isinstance(e.elt, ast.Name) and e.elt.id == g.target.id:
+            if all(isinstance(c, ast.Name) and c.id == g.target.id for c in g.ifs):
+                return _seq_elements(g.iter, seqs)
+    if isinstance(e, ast.Call) and isinstance(e.func, ast.Name) and e.func.id == "filter" and len(e.args) == 2:
+        f0 = e.args[0]
+        if (isinstance(f0, ast.Constant) and f0.value is None) or (isinstance(f0, ast.Name) and f0.id in ("bool", "len")):
+            return _seq_elements(e.args[1], seqs)
+    return None
+
+
+def rendered_sequences(ctx: Ctx, g: Func) -> List[Tuple[List[ast.AST], "object"]]:
+    """For every normal path of a renderer that returns `sep.join(<list>)`: the joined element expressions in order.
+
+    The list may be a literal, or a local that is built up (`x = [...]`, `x.append(e)`, `x.extend([...])`,
+    `x += [...]`, `x = x + [...]`, `x.insert(0, e)`) and may pass through an order-keeping empty-text filter.
+    Returns [(elements, PathInfo)]; a path whose joined value is not understood contributes (None, PathInfo).
+    """
+    from ..pathsem import function_paths
+
+    cfg = ctx.cfg(g)
+    out = []
+    for pi in function_paths(cfg, include_raise=False):
+        seqs: Dict[str, List[ast.AST]] = {}
+        result = None
+        understood = True
+        for node, _lab in pi.nodes:
+            st = node.ast
+            if node.kind != "stmt" or st is None:
+                continue
+            if isinstance(st, (ast.Assign, ast.AnnAssign)) and getattr(st, "value", None) is not None:
+                tgt = st.targets[0] if isinstance(st, ast.Assign) else st.target
+                if isinstance(tgt, ast.Name):
+                    el = _seq_elements(st.value, seqs)
+                    if el is not None:
+                        seqs[tgt.id] = el
+                    else:
+                        seqs.pop(tgt.id, None)
+            elif isinstance(st, ast.AugAssign) and isinstance(st.target, ast.Name) and isinstance(st.op, ast.Add) and st.target.id in seqs:
+                el = _seq_elements(st.value, seqs)
+                if el is None:
+                    seqs.pop(st.target.id, None)
+                else:
+                    seqs[st.target.id] = seqs[st.target.id] + el
+            elif isinstance(st, ast.Expr) and isinstance(st.value, ast.Call) and isinstance(st.value.func, ast.Attribute):
+                c = st.value
+                if isinstance(c.func.value, ast.Name) and c.func.value.id in seqs:
+                    name = c.func.value.id
+                    if c.func.attr == "append" and len(c.args) == 1:
+                        seqs[name] = seqs[name] + [c.args[0]]
+                    elif c.func.attr == "extend" and len(c.args) == 1 and _seq_elements(c.args[0], seqs) is not None:
+                        seqs[name] = seqs[name] + _seq_elements(c.args[0], seqs)
+                    elif c.func.attr == "insert" and len(c.args) == 2 and isinstance(c.args[0], ast.Constant) and c.args[0].value == 0:
+                        seqs[name] = [c.args[1]] + seqs[name]
+                    else:
+                        seqs.pop(name, None)
+            elif isinstance(st, ast.Return) and st.value is not None:
+                v = st.value
+                if isinstance(v, ast.Call) and isinstance(v.func, ast.Attribute) and v.func.attr == "join" and len(v.args) == 1:
+                    result = _seq_elements(v.args[0], seqs)
+                if result is None:
+                    understood = False
+        out.append((result if understood else None, pi))
+    return out
+
+
+def rendered_fields(ctx: Ctx, g: Func) -> List[List[str]]:
+    """Distinct field sequences (first self-attribute of every joined element, in order) over the renderer's paths."""
+    seen: List[List[str]] = []
+    for elements, _pi in rendered_sequences(ctx, g):
+        if elements is None:
+            raise AnalysisError(f"{g.qualname}: a path returns a text whose joined elements cannot be recovered")
+        fields = []
+        for e in elements:
+            cs = [c for c in chains_in(e) if c[0] == "self" and len(c) >= 2]
+            if cs:
+                fields.append(cs[0][1])
+        if fields not in seen:
+            seen.append(fields)
+    return seen
+
+
+# ------------------------------------------------------------------ small expression-level inlining
+class _SubstMany(ast.NodeTransformer):
+    def __init__(self, mapping: Dict[str, ast.AST]):
+        self.mapping = mapping
+
+    def visit_Name(self, node: ast.Name):
+        if isinstance(node.ctx, ast.Load) and node.id in self.mapping:
+            return clone(self.mapping[node.id])
+        return node
+
+
+def bind_call(callee: Func, call: ast.Call, bound: bool) -> Optional[Dict[str, ast.AST]]:
+    """parameter name -> argument expression (defaults included); None when the call shape is not simple."""
+    a = callee.node.args
+    if a.vararg or a.kwarg or a.posonlyargs or any(isinstance(x, ast.Starred) for x in call.args) or any(k.arg is None for k in call.keywords):
+        return None
+    params = [x.arg for x in a.args]
+    if bound and params and params[0] in ("self", "cls"):
+        params = params[1:]
+    elif bound and not any(isinstance(d, ast.Name) and d.id == "staticmethod" for d in callee.node.decorator_list):
+        params = params[1:] if params else params
+    if len(call.args) > len(params):
+        return None
+    m: Dict[str, ast.AST] = {}
+    for p_, v in zip(params, call.args):
+        m[p_] = v
+    for k in call.keywords:
+        if k.arg not in params + [x.arg for x in a.kwonlyargs] or k.arg in m:
+            return None
+        m[k.arg] = k.value
+    defaults = dict(zip([x.arg for x in a.args][len(a.args) - len(a.defaults):], a.defaults))
+    for x, d in zip(a.kwonlyargs, a.kw_defaults):
+        if d is not None:
+            defaults[x.arg] = d
+    for p_ in params + [x.arg for x in a.kwonlyargs]:
+        if p_ not in m:
+            if p_ not in defaults:
+                return None
+            m[p_] = defaults[p_]
+    return m
+
+
+def callee_of_self_call(ctx: Ctx, f: Func, call: ast.Call) -> Optional[Func]:
+    """Package method addressed as self.m(...) / cls.m(...) / ClassName.m(...) from inside `f`."""
+    fn = call.func
+    if isinstance(fn, ast.Attribute) and isinstance(fn.value, ast.Name) and f.cls is not None:
+        if fn.value.id in ("self", "cls") or fn.value.id == f.cls.name:
+            return f.cls.lookup_method(fn.attr)
+    return None
+
+
+def inline_helper_call(ctx: Ctx, f: Func, expr: Optional[ast.AST], depth: int = 0) -> Optional[ast.AST]:
+    """`self.m(args)` where m is `return <expr>` only  ->  <expr> with m's parameters replaced by the arguments.
+
+    Extract-method on one expression leaves the computed value unchanged; rules that look at how a value
+    is built see through such a helper.  Anything else is returned unchanged.
+    """
+    if not isinstance(expr, ast.Call) or depth > 3:
+        return expr
+    m = callee_of_self_call(ctx, f, expr)
+    if m is None:
+        return expr
+    body = _strip_doc(list(m.node.body))
+    if len(body) != 1 or not isinstance(body[0], ast.Return) or body[0].value is None:
+        return expr
+    binding = bind_call(m, expr, bound=True)
+    if binding is None:
+        return expr
+    out = _SubstMany(binding).visit(clone(body[0].value))
+    return inline_helper_call(ctx, f, out, depth + 1)
+
+
+def call_keywords(call: ast.Call, env: Dict[str, ast.AST]) -> Dict[str, ast.AST]:
+    """Keyword arguments of a call, `**name` expanded when `name` is a local bound to dict(k=v, ...) or {"k": v, ...}."""
+    kw: Dict[str, ast.AST] = {}
+    for k in call.keywords:
+        if k.arg is not None:
+            kw[k.arg] = k.value
+            continue
+        v = resolve_local(k.value, env)
+        if isinstance(v, ast.Call) and isinstance(v.func, ast.Name) and v.func.id == "dict" and not v.args:
+            kw.update({x.arg: x.value for x in v.keywords if x.arg})
+        elif isinstance(v, ast.Dict):
+            for kk, vv in zip(v.keys, v.values):
+                if isinstance(kk, ast.Constant) and isinstance(kk.value, str):
+                    kw[kk.value] = vv
+    return kw
+
+
+def single_env(fn: ast.AST) -> Dict[str, ast.AST]:
+    """Locals bound exactly once in the function, by a plain (annotated) assignment: name -> bound expression."""
+    count: Dict[str, int] = {}
+    val: Dict[str, ast.AST] = {}
+    for n in ast.walk(fn):
+        if isinstance(n, ast.Name) and isinstance(n.ctx, ast.Store):
+            count[n.id] = count.get(n.id, 0) + 1
+        if isinstance(n, ast.Assign) and len(n.targets) == 1 and isinstance(n.targets[0], ast.Name):
+            val[n.targets[0].id] = n.value
+        elif isinstance(n, ast.AnnAssign) and isinstance(n.target, ast.Name) and n.value is not None:
+            val[n.target.id] = n.value
+    return {k: v for k, v in val.items() if count.get(k) == 1}
